@@ -77,7 +77,7 @@ theorem other_out {W : Nat} {s : PState} {c : Nat} (cont : Nat → Label) (h1 : 
 
 theorem num_out {W : Nat} {bs pad : List Nat} {s : PState} {f : Frame} {rest : List Frame} {p c : Nat}
     (hat : At bs pad .val s (f :: rest) p c) (hc : isNumStart c = true) {r : NumOut}
-    (hagr : NumAgrees p bs.length (Number.scanNumber bs p) r)
+    (hagr : NumShape p bs.length r)
     (hr : numOut (Sonic.Model.Number.parseNumber s.buf bs.length p) = r) :
     (∀ v next, r = .ok v next →
         (s.sax.np < s.sax.cap → Lands bs pad (valueSwitch W s c (contOf f)) .cont
@@ -108,25 +108,19 @@ theorem num_out {W : Nat} {bs pad : List Nat} {s : PState} {f : Frame} {rest : L
     refine ⟨fun v0 next0 h0 => ?_, fun code pos h0 => (by cases h0)⟩
     injection h0 with h01 h02
     subst h01; subst h02
-    cases hsc : Number.scanNumber bs p with
-    | ok v next =>
-      rw [hsc] at hagr
-      obtain ⟨e1, e2, e3, e4⟩ := hagr
-      subst e1; subst e2
-      refine ⟨fun hlt => ?_, fun hlt => ?_⟩
-      · rw [scalar_ok hat.inv.st.1 hlt (numNode v)] at hvs
-        simp only [hat.inv.err, kErrorNone, ne_eq, not_true_eq_false, if_false] at hvs
-        rw [hvs]
-        have hnv : (numNode v).allocs = 0 := by cases v <;> rfl
-        have := scalar_lands hat hlt (numNode v) hnv
-          (s1 := { s with pos := next, sax := pushed s.sax (numNode v) })
-          (hat.inv.b.congr rfl rfl rfl (by simp only [hat.pos]; omega)) hat.inv.err rfl rfl e4
-        simp only [pushed, hat.inv.err] at this
-        exact this
-      · rw [scalar_full hlt (numNode v)] at hvs
-        exact ⟨_, hvs, rfl, rfl⟩
-    | infinity next => rw [hsc] at hagr; exact hagr.elim
-    | malformed => rw [hsc] at hagr; exact hagr.elim
+    obtain ⟨e3, e4⟩ : p < next' ∧ next' ≤ bs.length := hagr
+    refine ⟨fun hlt => ?_, fun hlt => ?_⟩
+    · rw [scalar_ok hat.inv.st.1 hlt (numNode v')] at hvs
+      simp only [hat.inv.err, kErrorNone, ne_eq, not_true_eq_false, if_false] at hvs
+      rw [hvs]
+      have hnv : (numNode v').allocs = 0 := by cases v' <;> rfl
+      have := scalar_lands hat hlt (numNode v') hnv
+        (s1 := { s with pos := next', sax := pushed s.sax (numNode v') })
+        (hat.inv.b.congr rfl rfl rfl (by simp only [hat.pos]; omega)) hat.inv.err rfl rfl e4
+      simp only [pushed, hat.inv.err] at this
+      exact this
+    · rw [scalar_full hlt (numNode v')] at hvs
+      exact ⟨_, hvs, rfl, rfl⟩
   | err code pos =>
     rw [hpn] at hvs hr
     simp only at hvs
@@ -135,11 +129,7 @@ theorem num_out {W : Nat} {bs pad : List Nat} {s : PState} {f : Frame} {rest : L
     refine ⟨fun v0 next0 h0 => (by cases h0), fun code0 pos0 h0 => ?_⟩
     injection h0 with h01 h02
     subst h01; subst h02
-    have hcd : code = 3 ∨ code = 2 := by
-      cases hsc : Number.scanNumber bs p with
-      | ok v next => rw [hsc] at hagr; exact hagr.elim
-      | infinity next => rw [hsc] at hagr; exact Or.inl hagr
-      | malformed => rw [hsc] at hagr; exact Or.inr hagr
+    have hcd : code = 3 ∨ code = 2 := hagr
     refine ⟨fun h3 hlt => ?_, fun h3 hlt => ?_, fun h3 => ?_⟩
     · subst h3
       simp only [Sonic.Model.Number.errInfinity, kParseErrorInfinity, if_true] at hvs
@@ -392,7 +382,7 @@ theorem matchLit_in {bs : List Nat} {i : Nat} {a b c d : Nat} (h : Json.matchLit
   exact (List.getElem?_eq_some_iff.mp this).1
 
 /-- **the two runs at a value position inside a container** -/
-theorem vs_rel (ctx1 : Ctx W1 bs pad1) (ctx2 : Ctx W2 bs pad2) (hnum : NumberCorrectOn bs)
+theorem vs_rel (ctx1 : Ctx W1 bs pad1) (ctx2 : Ctx W2 bs pad2) (hnum : NumberOK bs)
     {s1 s2 : PState} {f : Frame} {rest : List Frame} {p c : Nat}
     (a1 : At bs pad1 .val s1 (f :: rest) p c) (a2 : At bs pad2 .val s2 (f :: rest) p c)
     {cfg1 cfg2 : PState × Option Label} (e1 : valueSwitch W1 s1 c (contOf f) = .ok cfg1)
@@ -411,7 +401,7 @@ theorem vs_rel (ctx1 : Ctx W1 bs pad1) (ctx2 : Ctx W2 bs pad2) (hnum : NumberCor
   by_cases hn : isNumStart c = true
   · obtain ⟨_, _, h3, _⟩ := isNumStart_ne hn
     obtain ⟨hp, hbp⟩ := a1.lt_of_ne h3
-    obtain ⟨r, hagr, hr⟩ := hnum p c hp hbp hn
+    obtain ⟨r, hagr, hr⟩ := hnum.shape hp hbp hn
     have o1 := num_out (W := W1) a1 hn hagr (hr pad1 s1.buf ctx1.hlen ctx1.hpad ⟨a1.inv.b.blen, a1.suf⟩)
     have o2 := num_out (W := W2) a2 hn hagr (hr pad2 s2.buf ctx2.hlen ctx2.hpad ⟨a2.inv.b.blen, a2.suf⟩)
     cases r with
